@@ -76,6 +76,7 @@ int main()
     {
         if (line.empty())
             continue;
+        vh::case_alarm(120);
         auto f = vh::fields(line);
         const std::string op = f["op"];
         const IndexType N = std::stoi(f["N"]);
